@@ -51,6 +51,21 @@ def generate(rng, tier, index):
                 'cap': 150, 'sample': sorted(rng.sample(range(20, 140), 3))}
     rec = W.gen_run_record(rng, real_frac=0.12, real_kinds=('real_alzr', 'real_nicral'))
     rec['kind'] = 'run'
+    cfg = rec['cfg']
+    gbs = [p for p in cfg['phases'] if cfg['phase_params'][p].get('site') in W.SITE_KMAX] if cfg['backend'].startswith('stub') else []
+    if gbs and rng.random() < 0.5:
+        # the same model object is reset, given another interfacial / grain-boundary energy and solved again (cached boundary-site factors
+        # must follow, otherwise the critical radius is no longer where growth changes sign)
+        op = {'op': 'reconfigure'}
+        if rng.random() < 0.6:
+            ph = rng.choice(gbs)
+            kmax = W.SITE_KMAX[cfg['phase_params'][ph]['site']]
+            op['gamma'] = {ph: round(max(cfg['phase_params'][ph]['gamma'] * rng.choice([0.7, 1.5]), cfg['gbEnergy'] / (2 * 0.9 * kmax)), 4)}
+        else:
+            kmin = min(W.SITE_KMAX[cfg['phase_params'][p]['site']] for p in gbs)
+            gmin = min(cfg['phase_params'][p]['gamma'] for p in gbs)
+            op['gbEnergy'] = round(min(cfg['gbEnergy'] * rng.choice([0.5, 1.6]), 2 * gmin * 0.9 * kmin), 4)
+        rec['ops'] = rec['ops'][:1] + [op] + (rec['ops'][1:] or [dict(rec['ops'][0])])
     return rec
 
 
